@@ -413,7 +413,11 @@ class StmtMixin:
                 i = self.fresh_term('_i@%s' % tag, INT, False)
                 self.assume(smt.And(smt.Le(smt.IntC(0), i), smt.Lt(i, n)))
                 self.assume(inv(i, 'assume'))
-                elem = self.value_of_sort(smt.SeqNth(sv.t, i), sv.ety)
+                if sv.t.op == 'seq.extract':
+                    # 0 <= i < len(extract(s, a, n))  ==>  extract(s, a, n)[i] = s[a + i]
+                    elem = self.value_of_sort(smt.SeqNth(sv.t.args[0], smt.Add(sv.t.args[1], i)), sv.ety)
+                else:
+                    elem = self.value_of_sort(smt.SeqNth(sv.t, i), sv.ety)
                 if enum_start is not None:
                     elem = (SInt(smt.Add(i, self.int_term(enum_start))), elem)
                 if zipped is not None:
